@@ -321,9 +321,13 @@ class Interp:
         m = self.modules.get(modname)
         if m is not None:
             return m
-        if not (modname == 'bitstring' or modname.startswith('bitstring.')):
+        if modname == 'pyvc_client':
+            # client code exercising the public operators (contracts/_client_code.py): interpreted like the package itself
+            path = os.path.join(os.path.dirname(os.path.dirname(os.path.abspath(__file__))), 'contracts', '_client_code.py')
+        elif not (modname == 'bitstring' or modname.startswith('bitstring.')):
             raise Unsupported(f"import of unknown module {modname}")
-        path = self.source_path(modname)
+        else:
+            path = self.source_path(modname)
         with open(path) as f:
             src = f.read()
         tree = ast.parse(src, path)
@@ -346,7 +350,10 @@ class Interp:
     def lookup_qualname(self, q):
         """'bits.Bits._imul' / 'bitstore.indices' -> value"""
         parts = q.split('.')
-        m = self.get_module('bitstring.' + parts[0]) if parts[0] != 'bitstring' else self.get_module('bitstring')
+        if parts[0] == 'client':
+            m = self.get_module('pyvc_client')
+        else:
+            m = self.get_module('bitstring.' + parts[0]) if parts[0] != 'bitstring' else self.get_module('bitstring')
         v = m
         for p in parts[1:]:
             if isinstance(v, ModuleVal):
@@ -1016,15 +1023,33 @@ class Interp:
             return a
         return self.binop(op, a, b)
 
+    def _reflected_first(self, a, b, rname):
+        """the data model's priority rule: when the right operand's class is a proper subclass of the left operand's class and
+        provides a different implementation of the reflected method, that method is tried before the left operand's"""
+        if not (isinstance(a, Obj) and isinstance(b, Obj)) or a.cls is b.cls or a.cls not in b.cls.mro:
+            return None
+        fb, _ = b.cls.lookup(rname)
+        fa, _ = a.cls.lookup(rname)
+        if fb is _MISSING or fb is fa:
+            return None
+        return fb
+
     def binop(self, op, a, b):
         name = self._OPNAMES[type(op)]
+        tried_reflected = False
+        fr = self._reflected_first(a, b, '__r' + name + '__')
+        if fr is not None:
+            tried_reflected = True
+            r = self.call(BoundMethod(b, fr), [a], {})
+            if r is not NotImplemented:
+                return r
         if isinstance(a, Obj):
             f, _ = a.cls.lookup('__' + name + '__')
             if f is not _MISSING:
                 r = self.call(BoundMethod(a, f), [b], {})
                 if r is not NotImplemented:
                     return r
-        if isinstance(b, Obj):
+        if isinstance(b, Obj) and not tried_reflected:
             f, _ = b.cls.lookup('__r' + name + '__')
             if f is not _MISSING:
                 r = self.call(BoundMethod(b, f), [a], {})
@@ -1225,6 +1250,11 @@ class Interp:
         return a is b
 
     def equals(self, a, b):
+        fr = self._reflected_first(a, b, '__eq__')
+        if fr is not None and not isinstance(fr, Builtin):
+            r = self.call(BoundMethod(b, fr), [a], {})
+            if r is not NotImplemented:
+                return r
         if isinstance(a, Obj):
             f, _ = a.cls.lookup('__eq__')
             if f is not _MISSING and not isinstance(f, Builtin):
@@ -1816,6 +1846,9 @@ class Interp:
             except TypeError as ex:
                 if 'positional argument' in str(ex) or 'keyword argument' in str(ex) or 'required' in str(ex):
                     self.throw('TypeError', str(ex))
+                if any(sym.is_sym(a) or type(a).__name__ in ('SFloat', 'BA', 'SStr', 'PStr') for a in list(args) + list(kwargs.values())):
+                    # a host function this engine has no symbolic model for: the path is undecided, not an engine fault
+                    raise Unsupported(f'{f.name} applied to a symbolic value ({ex})')
                 raise
         if isinstance(f, ClassVal):
             return self.instantiate(f, args, kwargs)
